@@ -266,7 +266,18 @@ def rule_acceptance(chk, ci, concrete):
             chk.undecided('acceptance-predicate', cname, node=fn, file=rel, func='%s.%s' % (cdef.name, fn.name), detail='no acceptance site `if d2 < ...: nbrs.append(j)` found')
             continue
         ndistinct += 1
+        # `if d2 < hi2: append(j) else: <...> if d2 < hj2: append(j)` is the same acceptance as `if d2 < hi2 or d2 < hj2: append(j)`: an append site that sits in the
+        # else branch of an earlier one for the same candidate is the second half of that test
+        merged = []
         for f, r, (iff, app) in sites:
+            j_ = compact(app.value.args[0])
+            host = [m_ for m_ in merged if m_['f'] is f and m_['j'] == j_ and any(iff is x for b_ in m_['iff'].orelse for x in ast.walk(b_))]
+            if host and not (isinstance(iff.test, ast.BoolOp) and isinstance(iff.test.op, ast.And)):
+                host[0]['extra'].append(iff)
+            else:
+                merged.append({'f': f, 'r': r, 'iff': iff, 'app': app, 'j': j_, 'extra': []})
+        for m_ in merged:
+            f, r, iff, app = m_['f'], m_['r'], m_['iff'], m_['app']
             where = dict(node=iff, file=rel if f is fn else r.rel, func='%s.%s' % (cdef.name, f.name))
             inst = '%s.%s' % (cdef.name, f.name)
             j = compact(app.value.args[0])
@@ -275,12 +286,15 @@ def rule_acceptance(chk, ci, concrete):
                 chk.violated('acceptance-predicate', inst, detail='acceptance test %s joins the two radii with `and`: a pair within only one of the two '
                              'support radii is dropped (the criterion is r < radius_scale*max(h_i, h_j))' % U(test), **where)
                 continue
-            cmps = test.values if isinstance(test, ast.BoolOp) else [test]
+            pairs = [(c_, iff) for c_ in (test.values if isinstance(test, ast.BoolOp) else [test])]
+            for x_ in m_['extra']:
+                pairs += [(c_, x_) for c_ in (x_.test.values if isinstance(x_.test, ast.BoolOp) else [x_.test])]
+            cmps = [c_ for c_, at_ in pairs]
             if not all(isinstance(c, ast.Compare) and len(c.ops) == 1 and isinstance(c.ops[0], (ast.Lt, ast.LtE)) for c in cmps):
                 chk.undecided('acceptance-predicate', inst, detail='unrecognised acceptance test %s' % U(test), **where)
                 continue
-            lefts = [r.sym(c.left, iff) for c in cmps]
-            rights = [r.sym(c.comparators[0], iff) for c in cmps]
+            lefts = [r.sym(c.left, at_) for c, at_ in pairs]
+            rights = [r.sym(c.comparators[0], at_) for c, at_ in pairs]
             if any(p is None for p in lefts + rights):
                 chk.undecided('acceptance-predicate', inst, detail='cannot resolve %s symbolically' % U(test), **where)
                 continue
@@ -1052,8 +1066,13 @@ def rule_no_pruning(chk, ci, concrete):
             seen.add(key)
             M.set_parents(f3)
             tainted = geometry_tainted(f3)
-            for site_if, app in accept_sites(f3):
+            sites_ = accept_sites(f3)
+            accept_ifs = set(id(si) for si, ap in sites_)
+            for site_if, app in sites_:
                 for test, node in controlling_conditions(f3, site_if, app):
+                    if id(node) in accept_ifs and node is not site_if:
+                        # the else branch of the first half of a split acceptance test (`if d2 < hi2: append else: if d2 < hj2: append`): part of the predicate, not a pruning
+                        continue
                     n += 1
                     who = '%s.%s' % (c3.name, f3.name)
                     inst = '%s:%s' % (who, compact(test)[:60] if test is not None else 'unconditional-skip@%d' % node.lineno)
